@@ -16,6 +16,10 @@ type Policy struct {
 	// SpawnDeclared: a declared function started with `go` is walked as a spawned sub-path (like a function literal) when this
 	// returns true for it and Inline admits it; otherwise only the go event is recorded.
 	SpawnDeclared func(fn *types.Func) bool
+	// WalkFuncArgs: for an opaque call of such a callee every function-valued argument (function literal, declared function,
+	// method value) is walked on a copy of the state with unknown parameters; its paths are attached to the call event (Sub).
+	// Used for constructors that take option callbacks: what the callbacks install is visible although the callee is not inlined.
+	WalkFuncArgs func(callee *types.Func) bool
 	// Inline decides whether a statically resolved in-package callee is interpreted at the call site.
 	Inline func(fn *types.Func, depth int) bool
 	// Role classifies an event (mostly calls) into the role table.
@@ -471,7 +475,11 @@ func (e *Engine) assignMulti(st *State, lhs, rhs []ast.Expr, tok token.Token, po
 					} else {
 						v = e.newVal(KUnknown, nil, pos)
 					}
-					next = append(next, e.assignTo(s, l, v, pos)...)
+					res := e.assignTo(s, l, v, pos)
+					if _, isCall := ast.Unparen(rhs[0]).(*ast.CallExpr); isCall {
+						markFromCall(res)
+					}
+					next = append(next, res...)
 				}
 				sts = next
 			}
@@ -499,13 +507,28 @@ func (e *Engine) assignMulti(st *State, lhs, rhs []ast.Expr, tok token.Token, po
 		for i, l := range lhs {
 			var next []*State
 			for _, s := range sts {
-				next = append(next, e.assignTo(s, l, a.vs[i], pos)...)
+				res := e.assignTo(s, l, a.vs[i], pos)
+				if call, isCall := ast.Unparen(rhs[i]).(*ast.CallExpr); isCall {
+					if tv, ok := e.Info.Types[call.Fun]; !ok || !tv.IsType() {
+						markFromCall(res)
+					}
+				}
+				next = append(next, res...)
 			}
 			sts = next
 		}
 		out = append(out, sts...)
 	}
 	return out
+}
+
+// markFromCall notes on the assignment event just emitted that the assigned value is the result of a call.
+func markFromCall(sts []*State) {
+	for _, s := range sts {
+		if n := len(s.Events); n > 0 && s.Events[n-1].Kind == EvAssign && s.Events[n-1].Note == "" {
+			s.Events[n-1].Note = "call"
+		}
+	}
 }
 
 // assignTo stores v into the location designated by lhs.
